@@ -70,14 +70,25 @@ def atom(k):
 
 
 def _operand_atom(e):
-    """`P.integral`, `P[0].integral`, `P[0][0].integral` -> 'P.integral'."""
+    """`P.integral` -> 'P'; `P[0].integral`, `P[0][0].integral` -> 'P[0]' (the flag of one fixed element of a list operand,
+    which says nothing about the other elements; the index is kept); `P[i].integral` with a variable index -> 'P'."""
     if isinstance(e, ast.Attribute) and e.attr == 'integral':
         b = e.value
+        idx = []
         while isinstance(b, ast.Subscript):
+            k = const_int(b.slice)
+            idx.append(k)
             b = b.value
         if isinstance(b, ast.Name):
+            if idx and all(k is not None for k in idx):
+                return b.id + ''.join(f'[{k}]' for k in reversed(idx))
             return b.id
     return None
+
+
+def _fixed_element_atoms(ats, p):
+    """atoms `p[k]...integral` reading the flag of a fixed element of operand p"""
+    return sorted(a for a in ats if a.startswith(p + '[') and a.endswith('.integral'))
 
 
 class FlagFormula:
@@ -106,6 +117,21 @@ class FlagFormula:
             return atom(p + '.integral')
         if isinstance(e, ast.Call) and isinstance(e.func, ast.Name) and e.func.id in ('all',) and e.args:
             a = e.args[0]
+            if isinstance(a, (ast.GeneratorExp, ast.ListComp)) and len(a.generators) > 1:
+                # all(v.integral for r in A for v in r): every entry of the matrix operand A
+                gs = a.generators
+                chained = all(isinstance(gs[i].iter, ast.Name) and isinstance(gs[i - 1].target, ast.Name) and gs[i].iter.id == gs[i - 1].target.id
+                              and not gs[i].ifs for i in range(1, len(gs)))
+                if chained and not gs[0].ifs and isinstance(gs[0].iter, ast.Name) and _operand_atom(a.elt) == norm(gs[-1].target):
+                    return atom(gs[0].iter.id + '.integral')
+            if isinstance(a, (ast.GeneratorExp, ast.ListComp)) and len(a.generators) == 1 and isinstance(a.generators[0].iter, ast.BinOp) \
+                    and isinstance(a.generators[0].iter.op, ast.Add) and not a.generators[0].ifs and _operand_atom(a.elt) == norm(a.generators[0].target):
+                # all(v.integral for v in X + Y): every element of both list operands
+                def flat(x):
+                    return flat(x.left) + flat(x.right) if isinstance(x, ast.BinOp) and isinstance(x.op, ast.Add) else [x]
+                parts = flat(a.generators[0].iter)
+                if all(isinstance(x, ast.Name) for x in parts):
+                    return ('and', [atom(x.id + '.integral') for x in parts])
             if isinstance(a, (ast.GeneratorExp, ast.ListComp)):
                 # all(<expr over v> for v in X): the atom is X.integral when the element mentions v.integral
                 g = a.generators[0]
@@ -203,6 +229,9 @@ def satisfiable(f, fixed):
 
 
 # ---------------------------------------------------------------------------------- declarations
+ARRAY_DECLS = set()      # ids of flag expressions declared together with a shape: the operand is one array (P[0] is the array)
+
+
 def _declarations(fn, pm):
     """(returnType call, flag expression node, statement used as the point of use) for every
     declaration of a fixed-point flag in fn."""
@@ -229,6 +258,8 @@ def _declarations(fn, pm):
                                                    for _, dv, _ in definitions(fn.node, e.id)) and 'integral' not in e.id:
                     continue
                 out.append((c, e, st))
+                if len(v.elts) >= 3 and 'shape' in norm(v.elts[2]):
+                    ARRAY_DECLS.add(id(e))
     return out
 
 
@@ -252,13 +283,30 @@ def rule_FX1(ctx, rep):
             ats = atoms_of(f)
             if f[0] == 'const':
                 continue    # literal True/False: FX2
-            flagged = {a[:-9] for a in ats if a.endswith('.integral')}
+            flagged = {a[:-9].split('[')[0] for a in ats if a.endswith('.integral')}
             probs = []
             for p in operands:
                 if (k, p) in OPERAND_EXEMPT:
                     continue
                 # is p an operand of fixed-point arithmetic here? (it is gathered; selectors/keys are exempted above)
                 fixed = {a: False for a in ats if a in ESCAPE_ATOMS}
+                fe = _fixed_element_atoms(ats, p)
+                if id(e) in ARRAY_DECLS and fe == [p + '[0].integral'] and p + '.integral' not in ats:
+                    # (stype, P[0].integral, P[0].shape): P holds one secure array, whose flag covers all its entries
+                    fixed[fe[0]] = False
+                    if satisfiable(f, fixed):
+                        probs.append(f'the declared flag `{norm(e)}` can be True although {fe[0]} is False')
+                    continue
+                if p + '.integral' not in ats and len(fe) >= 2:
+                    # the flags of several fixed positions are read (a pair such as (re, im)): all of them must be needed
+                    fixed.update({a: False for a in fe[:1]})
+                    if satisfiable(f, fixed):
+                        probs.append(f'the declared flag `{norm(e)}` can be True although {fe[0]} is False')
+                    continue
+                if p + '.integral' not in ats and len(fe) == 1:
+                    probs.append(f'the declared flag `{norm(e)}` reads the integral flag of one fixed element of the list operand {p} only: for a list '
+                                 f'whose other elements are not integral, every element of the result is marked integral (use all(a.integral for a in {p}))')
+                    continue
                 if p + '.integral' not in ats:
                     if flagged:
                         probs.append(f'operand {p} is gathered and enters the result, but its integral flag does not enter the declared flag `{norm(e)}`: '
@@ -268,6 +316,24 @@ def rule_FX1(ctx, rep):
                 if satisfiable(f, fixed):
                     probs.append(f'the declared flag `{norm(e)}` can be True although {p}.integral is False (escape atoms false): '
                                  'a conjunction over the operands has been weakened')
+            # the flags are read at the declaration: an operand must not be combined with another value afterwards
+            decl_st = astq.enclosing_stmt(call, pm)
+            for p in sorted(flagged):
+                for s2 in iter_nodes(fn.node):
+                    if not isinstance(s2, (ast.Assign, ast.AugAssign)) or astq.position(s2) <= astq.position(decl_st):
+                        continue
+                    tg = s2.targets[0] if isinstance(s2, ast.Assign) else s2.target
+                    if not (isinstance(tg, ast.Subscript) and isinstance(tg.value, ast.Name) and tg.value.id == p):
+                        continue
+                    gathers = [g for g in calls_named(fn.node, 'gather') if any(isinstance(x, ast.Name) and x.id == p for x in ast.walk(g))]
+                    if not gathers or astq.position(s2) >= astq.position(gathers[0]):
+                        continue
+                    val = s2.value
+                    if isinstance(s2, ast.AugAssign) or isinstance(val, ast.BinOp):
+                        others = {x.id for x in ast.walk(val) if isinstance(x, ast.Name)} - {p}
+                        if others:
+                            probs.append(f'operand {p} is combined with {sorted(others)} ({norm(s2)}) after its integral flags were read for the declaration '
+                                         f'`{norm(e)}`: the declared flag does not account for the value folded in')
             if not flagged and operands:
                 # a declaration not built from operand flags at all (e.g. `not s_type.frac_length`)
                 if k == 'runtime::Runtime._convert' and norm(e) == 'not s_type.frac_length':
